@@ -111,7 +111,10 @@ def oracle_track(rec, lines):
     if rec["fptrack"] == 3:
         k, mean, std = vals[-2]
         want_std = 1.0 / rec["delta"] / math.sqrt(1 - rec["e1"] / 2)
-        if abs(mean - rec["yc"]) > 0.12 * want_std:
+        # mean after k steps (theorem stochastic_mean_relaxes): yc + (ystart - yc) (1-e1)^k; the start may be a
+        # grid edge 30 cells away, of which e^-4 is still left after 4/e1 steps
+        resid = (max(1.0, min(rec["ystart"], n - 1.0)) - rec["yc"]) * (1 - rec["e1"]) ** int(k)
+        if abs(mean - rec["yc"] - resid) > 0.12 * want_std:
             return ("stochastic tracking: ensemble mean %.3f after %d steps, zero-energy bin at %.3f (natural width %.3f cells)"
                     % (mean, int(k), rec["yc"], want_std))
         if abs(std - want_std) > 0.08 * want_std:
